@@ -654,6 +654,10 @@ def run(c, index, tier):
             pa, pb = params_of(x, "after-transplant"), params_of(src, "after-transplant")
             if pa is None or pb is None:
                 return
+            # the source only lent its own values: it must report what it reported before
+            dsrc = _equal_params(p, pb)
+            if dsrc:
+                sim.viol("transplant-changed-source", (dsrc.split(":")[0].split(".")[-1][:30],), "feeding an instance's get_params(deep=True) to another instance changed the first one: %s" % dsrc)
             d = _equal_params(pa, pb)
             if d:
                 sim.viol("transplant-params-differ", (d.split(":")[0].split(".")[-1][:30],), "after feeding one instance's get_params(deep=True) to another the two report different parameters: %s" % d)
